@@ -31,8 +31,11 @@ def main():
     nid = job.get("first_id", 0)
     for item in job["items"]:
         try:
-            with open(item["path"], encoding="utf-8", newline="") as f:
-                text = f.read()
+            if "text" in item:
+                text = item["text"]
+            else:
+                with open(item["path"], encoding="utf-8", newline="") as f:
+                    text = f.read()
             roles0, code0 = classify(text)
         except Exception:
             continue  # the base file itself is not accepted (or not readable as utf-8): nothing to compare
